@@ -34,6 +34,25 @@ CLAIMS = {
              "builds are additionally compared with each other in lock-step.",
         technique="Lean 4 simulation proof between two interpreters + two real builds in lock-step",
         design="7 C02"),
+    'C03': dict(
+        text="Proof against an abstract receive environment; the tie of that environment to the chip model is by the correspondence "
+             "scripts only (no refinement theorem yet, unlike C04). The environment rxE (Sx/Lemmas/RxFifo.lean) is a 64-byte FIFO into which "
+             "the demodulator may push any number of the frame's next bytes before EVERY SPI transfer (hence also between the transfers of a "
+             "running handler) as long as the FIFO does not fill up (the property's hypothesis), PayloadReady raised at any moment after the "
+             "last byte - also inside a running handler - with CrcOk per CRC outcome, flag bits consistent with the FIFO at the moment of the "
+             "read, PayloadReady cleared when the FIFO becomes empty, anything inside the callback; fault-free bus (failures: C11). Theorems, "
+             "for every buffer size, both packet formats, with and without address byte, every payload that fits, every CRC setting/outcome: "
+             "header_spec (configuration registers, length byte, address byte), batch_level (the FIFO-level path takes the header and full "
+             "batches only, stores them at the right offset, never takes the packet's last byte, never reads an empty FIFO), drain_spec / "
+             "batch_ready (the payload-ready path takes exactly what is left; the byte-wise loop by induction on the fuel), rx_invocation "
+             "(one handler invocation, whatever the flags - spurious ones included: still receiving, or delivered: callback exactly once "
+             "with exactly the payload and its length and only with a good CRC, or dropped for CRC: no callback, FIFO flushed; in both cases "
+             "the per-packet state is zero again), C03_session (induction over any number of invocations), rx_start (the reset state is the "
+             "start state of the next packet: no residue). The proof attempt exposed a genuine defect (PayloadReady lost when it is raised "
+             "between the flag read and a FIFO read that empties the FIFO; repaired in /repo, 2b81b62). Not proved: overflow when the host is "
+             "too slow (outside the hypothesis), buffers smaller than the payload (C08), back-to-back packets beyond the reset-state argument.",
+        technique="Lean 4 weakest-precondition calculus over an abstract environment (all schedules of arrivals, all flag answers) + induction on the drain loop and on invocations + RX schedules with in-handler arrivals on the real driver",
+        design="7 C03"),
     'C04': dict(
         text="Proof against an abstract transmit environment that is itself proved to cover the chip model; the assumption on the schedule "
              "(no underrun) and the behaviour after the callback are left to the scripts. The environment txE (Sx/Lemmas/TxFifo.lean) is a "
